@@ -115,6 +115,17 @@ def record(name_, **fields):
     return name
 
 
+ISINSTANCE = {}      # record name -> {python class name: boolean field that says "the object is an instance of it"}
+
+
+def tagged_record(name_, tags, **fields):
+    """A record that stands for objects of several classes (AST nodes ...): isinstance(x, C) reads the tag field."""
+    name = name_
+    RECORDS.setdefault(name, {}).update(fields)
+    ISINSTANCE[name] = dict(tags)
+    return name
+
+
 TUPLE_RECORDS = set()   # namedtuples: immutable records that unpack into their fields in order
 
 
